@@ -188,6 +188,14 @@ def check_merge(ctx, lib, rule, name):
         its_, ito = unlet(list(fs)[0]), unlet(list(fo)[0])
         okf = its_[0] == "call" and suffix_match(its_[1], "iter") and unify(pat("@0"), its_[2][0]) is not None and ito[0] == "call" and suffix_match(ito[1], "iter") and unify(pat("@1"), ito[2][0]) is not None
     ctx.expect(okf, rule, key + "|iterators", site, "the first cursor must walk self.iter() and the second other.iter()")
+    # every value a cursor ever takes (its initial value and each advance) is the *forward* step of its own
+    # iterator: a next_back() anywhere makes the merge skip or revisit values of the sorted sequences
+    if okf:
+        for cur, it, who in ((cs, list(fs)[0], "self"), (co, list(fo)[0], "other")):
+            vals = [a[2] for a in sym.subterms(t) if a[0] == "assign" and a[1] == cur]
+            vals += [st[2] for q in sym.subterms(t) if q[0] == "seq" for st in q[1] if st[0] == "let" and st[1][0] == "pbind" and st[1][1] == cur[1]]
+            good = len(vals) >= 2 and all(v[0] == "call" and v[1].split("::")[-1] == "next" and len(v[2]) == 1 and v[2][0] == it for v in vals)
+            ctx.expect(good, rule, key + "|cursor-steps-forward=%s" % who, site, "the %s cursor must only ever be (re)loaded with next() of its own iterator; found %s" % (who, sorted({show(v, maxdepth=2)[:60] for v in vals})))
     S = ("proj", cs, ANY, 0)
     O = ("proj", co, ANY, 0)
     table = MERGE_TABLES[name]
@@ -305,8 +313,22 @@ def check_before(ctx, lib, rule):
             sres = tables.result(some[0][2])
             nres = tables.result(none[0][2])
             if name == "copy_before":
-                rng = ("call", P("new"), (("call", P("start"), (R,)), AnyOf(("call", P("saturating_sub"), (u, ("lit", ANY))), ("binop", "Sub", u, ("lit", ANY)))))
+                # the kept part is start ..= pred(u), where pred(u) must be the *exact* predecessor: a saturating
+                # subtraction returns isize::MIN itself for u == isize::MIN and would keep {MIN} (F17)
+                rng = ("call", P("new"), (("call", P("start"), (R,)), ("binop", "Sub", u, ("lit", ANY))))
                 good = sres[0] == "if" and unify(("call", P("is_empty"), (rng,)), unlet_deep(sres[1])) is not None and unify(pat("None"), tables.result(sres[2])) is not None and unify(("ctor", P("Some"), (("ctor", P("FiniteDomain::Interval"), (rng,)),)), unlet_deep(tables.result(sres[3]))) is not None
+                if not good and sres[0] == "match" and sres[1][0] == "call" and suffix_match(sres[1][1], "checked_sub") and unify(u, sres[1][2][0]) is not None and "Pu128(1)" in str(sres[1][2][1]):
+                    # match u.checked_sub(1) { Some(last) if start <= last => Some(Interval(start..=last)), _ => None }
+                    last = ("proj", sres[1], P("Some"), 0)
+                    start = ("call", P("start"), (R,))
+                    some2 = tables.find_arm(sres, "Some")
+                    rest = [a for a in sres[2] if a not in some2]
+                    good = len(some2) == 1 and bool(rest) and all(unify(pat("None"), tables.result(a[2])) is not None and a[1] is None for a in rest)
+                    if good:
+                        g = some2[0][1]
+                        gok = g is not None and (unify(("binop", "Le", start, last), unlet_deep(g)) is not None or unify(("binop", "Ge", last, start), unlet_deep(g)) is not None)
+                        rng2 = ("call", P("new"), (start, last))
+                        good = gok and unify(("ctor", P("Some"), (("ctor", P("FiniteDomain::Interval"), (rng2,)),)), unlet_deep(tables.result(some2[0][2]))) is not None
                 good = good and unify(("ctor", P("Some"), (pat("@0"),)), nres) is not None
                 return (b if good else None, "copy_before(interval): start..=u-1 (None if empty); whole domain if no element satisfies the predicate; found %s" % show(sres, maxdepth=6)[:200])
             rng = ("call", P("new"), (u, ("call", P("end"), (R,))))
@@ -386,6 +408,12 @@ def check_overflow(ctx, lib, rule):
             if tm["k"] == "assert" and not b["cleanup"] and (tm["kind"].startswith("overflow") or tm["kind"] in ("divzero", "remzero")):
                 bad += 1
                 ctx.violation(rule, "%s|%s" % (p, tm["kind"]), site_of(tm["sp"]), "unchecked arithmetic on domain values (%s): panics for large bounds; use comparison, saturating_* or checked_*" % tm["kind"])
+            # clamping arithmetic is not exact: the set algebra must compute bounds exactly (comparisons, checked_*)
+            if tm["k"] == "call" and not b["cleanup"] and isinstance(tm.get("callee"), str):
+                c = tm["callee"].split("::")[-1]
+                if c.startswith(("saturating_", "wrapping_", "overflowing_")) and ("isize" in tm["callee"] or "core::num" in tm["callee"]):
+                    bad += 1
+                    ctx.violation(rule, "%s|%s" % (p, c), site_of(tm["sp"]), "domain algebra computes a bound with `%s`: at the isize extremes the clamped / wrapped value is not the set's bound (e.g. the predecessor of isize::MIN does not exist), so the result denotes a different set" % c)
     ctx.floor(rule, n, 20, "FiniteDomain functions scanned for overflow asserts")
     if not bad:
         ctx.ok(rule, "no-overflow-asserts", "src/state/fd.rs", "%d functions scanned" % n)
